@@ -125,13 +125,18 @@ def threadMesh (dMin dMaj pitch length : α) (segments : Nat) (leadInDeg leadOut
 /-- `Polyhedron::into_scad` -/
 def polyScad (p : Dim3.Polyhedron α) : Scad α := Scad.node (.polyhedron p.points p.faces 1) []
 
-/-- `threaded_cylinder` -/
-def threadedCylinder (dMin dMaj pitch length : α) (segments : Nat) (leadInDeg leadOutDeg : α)
-    (left center : Bool) : Option (Scad α) := do
+/-- the un-centred thread with its core rod -/
+def threadedCylinderCore (dMin dMaj pitch length : α) (segments : Nat) (leadInDeg leadOutDeg : α)
+    (left : Bool) : Option (Scad α) := do
   let m ← threadMesh dMin dMaj pitch length segments leadInDeg leadOutDeg left
   let threads : Scad α := Scad.node (.polyhedron m.points m.faces m.convexity) []
   let rod ← Dim3.Polyhedron.cylinder (dMin / lit 2 + lit 1 / lit 10000) length segments
-  let result := Scad.add threads (polyScad rod)
-  pure (if center then Scad.node (.translate ⟨0, 0, -length / lit 2⟩) [result] else result)
+  pure (Scad.add threads (polyScad rod))
+
+/-- `threaded_cylinder` -/
+def threadedCylinder (dMin dMaj pitch length : α) (segments : Nat) (leadInDeg leadOutDeg : α)
+    (left center : Bool) : Option (Scad α) :=
+  (threadedCylinderCore dMin dMaj pitch length segments leadInDeg leadOutDeg left).map fun result =>
+    if center then Scad.node (.translate ⟨0, 0, -length / lit 2⟩) [result] else result
 
 end ScadVerif.Thread
